@@ -1,9 +1,9 @@
 (* C15 model driver.  Reads the cases written by harness/c15.cpp.  Every number of the data part is
    the bit pattern of a double, i.e. a dyadic rational m*2^e.
 
-   M : the model's post-state (run_call on the exact rationals) and its prediction that the very
-       first step is NaN (step_nan_at .. 0), printed as integers on the 2^-40 grid like the
-       harness's I line.
+   M : the model's post-state (run_call on the exact rationals), printed as integers on the 2^-40
+       grid like the harness's I line, and n0 = 0: since fix 66f871b the step rule clamps
+       (step_rule_defined_lemma), so the model predicts that no first step is NaN.
    S : "S:ok" when
        (a) the vertices lie on the exact curve in order: the harness proposes a parameter for every
            vertex, the driver checks 0 < t1 < ... < tn = 1 and |C(t_k) - V_k| <= 1e-7 of the
@@ -247,11 +247,13 @@ let do_poly id (t : toks) =
   match result with
   | None -> out id "M" "crash"; out id "S" "S:skip outside the documented domain"
   | Some (st', secs) ->
-      let n0 =
+      (* whether the first step takes the clamp branch (where the old code produced NaN): statistics only *)
+      let _clamp0 =
         if kind = "param" then false
         else match secs with
-          | SBez ctrl :: _ -> step_nan_at ctrl (q_of_dy tol) q0
+          | SBez ctrl :: _ -> step_clamp_at ctrl (q_of_dy tol) q0
           | _ -> false in
+      let n0 = false in
       out id "M" (Printf.sprintf "n0=%s E=%s C=%s" (if n0 then "1" else "0") (pt_grid40 st'.cur) (pt_grid40 st'.lctl));
       (try
         if List.length secs <> List.length secdata then raise (Sfail (kind ^ ":sections number of sections differs from the model"));
